@@ -185,7 +185,7 @@ def names(ctx, reserved, unreserved):
         kw += [w, w.upper(), w.capitalize(), w + '\n', w + '_', w + '"', w.replace('k', 'K'), w + ' ']
     targeted = ['abc\n', 'a\n\n', '\n', 'a\r', 'a b', 'a"; DROP KEYSPACE x; --', 'ks" WITH x', "it's", "''", '""', 'a""b', "a''b",
                 'system_auth', 'x' * 200, '"' * 31, "'" * 31, 'abc\x00', 'abc ', 'abc\x85', 'abc\x0b', 'abc\x1c']
-    nrand = 800 if ctx.tier == 'quick' else 20000
+    nrand = 800 if ctx.tier == 'quick' else 6000
     rnd = []
     for _ in range(nrand):
         k = rng.randint(5, 40)
